@@ -591,7 +591,7 @@ func (f *STFS) OpenFile(name string, flag int, perm os.FileMode) (afero.File, er
 		return nil, config.ErrIsDirectory
 	}
 
-	return NewFile(
+	file := NewFile(
 		f.readOps,
 		f.writeOps,
 
@@ -610,7 +610,16 @@ func (f *STFS) OpenFile(name string, flag int, perm os.FileMode) (afero.File, er
 
 		f.onHeader,
 		f.log,
-	), nil
+	)
+
+	// Truncate when opening, not on the first write: the handle might be closed without one
+	if flags.Write && flags.Truncate && hdr.Typeflag != tar.TypeDir && hdr.Size != 0 {
+		if err := file.enterWriteMode(); err != nil {
+			return nil, err
+		}
+	}
+
+	return file, nil
 }
 
 func (f *STFS) Remove(name string) error {
